@@ -2,7 +2,7 @@
    One theorem per hand-written pair the property names; the caching-loader pair (CachingLoaderMixin.load / load_async)
    is C23_sync_async_copies_agree in Props/C23.v and is not repeated here. *)
 From Coq Require Import String ZArith List.
-From LiquidVerif Require Import Prelude PyPrims PairSync PairSync_Proofs.
+From LiquidVerif Require Import Prelude PyPrims MacroArgs PairSync PairSync_Proofs PairTags PairTags_Proofs.
 Import ListNotations.
 Local Open Scope list_scope.
 
@@ -101,3 +101,70 @@ Proof. reflexivity. Qed.
 
 Example C01_filters_agree_example : filters_agree [{| f_sync := fun v => Ok v; f_async := None |}].
 Proof. constructor; [exact I | constructor]. Qed.
+
+(* ---------------------------------------------------------------------------------------------------------------
+   The paired copies of the tags (PairTags.v): each copy is a sequence of primitive render-context operations; compared
+   are the evaluation log (which variable is looked up when, answered by a local namespace / the globals / nothing), the
+   trace of context operations with their arguments (extend, bind, loop-limit checks, loop_iterations, copy with its
+   flags, render_with_context with its flags), the output and the outcome. *)
+
+(* IncludeNode: name evaluation, get_template, keyword arguments, extend, bound variable (evaluated with the arguments in
+   scope), array / single branch, loop-limit check, loop_iterations, render_with_context -- same operations in the same
+   order through both APIs, for every environment, context, node and starting state. *)
+Theorem C01_include_tag : forall e c n s, include_async e c n s = include_sync e c n s.
+Proof. exact include_async_eq. Qed.
+Print Assumptions C01_include_tag.
+
+(* RenderNode: get_template, keyword arguments, copy (include disabled, iterations carried, template), bound variable
+   (evaluated in the CALLER's context), forloop drop, one isolated copy per item, block scope. *)
+Theorem C01_render_tag : forall e c n s, render_async e c n s = render_sync e c n s.
+Proof. exact render_async_eq. Qed.
+Print Assumptions C01_render_tag.
+
+(* CallNode: macro lookup, excess positional, excess keyword, then parameters in declaration order, copy (include and
+   block disabled, iterations carried), body rendered as a block. *)
+Theorem C01_call_tag : forall e c n s, call_async e c n s = call_sync e c n s.
+Proof. exact call_async_eq. Qed.
+Print Assumptions C01_call_tag.
+
+(* The model tells the two divergences that were once seeded apart: the bound variable of include evaluated before the
+   keyword arguments are pushed (log and output differ for {% include 'p' with gx, gx: 7 %}) ... *)
+Theorem C01_include_seeded_refuted :
+  exists e c n,
+    s_log (snd (include_async_seeded e c n st0)) <> s_log (snd (include_sync e c n st0)) /\
+    s_out (snd (include_async_seeded e c n st0)) <> s_out (snd (include_sync e c n st0)).
+Proof. exact include_async_seeded_refuted. Qed.
+Print Assumptions C01_include_seeded_refuted.
+
+(* ... and carry_loop_iterations dropped from the copy made by call (outcome and copy flags differ under a loop limit). *)
+Theorem C01_call_seeded_refuted :
+  exists e c n,
+    fst (call_async_seeded e c n st0) <> fst (call_sync e c n st0) /\
+    s_trace (snd (call_async_seeded e c n st0)) <> s_trace (snd (call_sync e c n st0)).
+Proof. exact call_async_seeded_refuted. Qed.
+Print Assumptions C01_call_seeded_refuted.
+
+(* What both copies of include do with the bound variable, for all inputs: once the keyword arguments are pushed, a
+   keyword argument of the same name answers and the globals are not consulted. *)
+Theorem C01_include_bound_var_scope : forall e c m x y s c1 s1,
+  extend e c m s = (Ok c1, s1) -> alookup x m = Some y ->
+  resolve c1 x s1 = (Ok y, log1 s1 (x, WLocal)).
+Proof. exact include_bound_var_sees_keyword. Qed.
+Print Assumptions C01_include_bound_var_scope.
+
+(* What a copy with carry_loop_iterations hands to the callee's loop-limit checks. *)
+Theorem C01_copy_carries_iterations : forall e c m d b t s cx s1,
+  copy e c m d true b t s = (Ok cx, s1) -> c_carry cx = prod (c_loops c) * c_carry c.
+Proof. exact copy_carries_iterations. Qed.
+Print Assumptions C01_copy_carries_iterations.
+
+Example C01_include_tag_example :
+  o_seen (fst (run_include ({| tc_limit := None; tc_depth := 30; tc_loops := []; tc_globals := [(lit "gx", VS 5)];
+                                tc_templates := [(lit "p", [PPrint (lit "p"); PPrint (lit "gx")])]; tc_macros := [] |},
+                            {| in_name := ELit (VS 0); in_tname := lit "p"; in_var := Some (EVar (lit "gx")); in_alias := None;
+                               in_args := [(lit "gx", ELit (VS 7))] |}))) = [] /\
+  o_out (fst (run_include ({| tc_limit := None; tc_depth := 30; tc_loops := []; tc_globals := [(lit "gx", VS 5)];
+                               tc_templates := [(lit "p", [PPrint (lit "p"); PPrint (lit "gx")])]; tc_macros := [] |},
+                           {| in_name := ELit (VS 0); in_tname := lit "p"; in_var := Some (EVar (lit "gx")); in_alias := None;
+                              in_args := [(lit "gx", ELit (VS 7))] |}))) = [OV (VS 7); OV (VS 7)].
+Proof. vm_compute. split; reflexivity. Qed.
